@@ -1,0 +1,13 @@
+//go:build verif
+
+// Verification contracts (property C35, addition; comment-only, read by /verif/govc). No executable code.
+// parseGroupBy / parseOrderBy cut the clause text out of the ORIGINAL query (`rest`) at a position found in a
+// lower-cased copy: the copy searched must have the length of the text that is sliced, otherwise the position can lie
+// beyond its end (strings.ToLower may change the byte length of non-ASCII text) and the slice expression panics.
+
+package sql
+
+//@ func parseGroupBy
+//@   at clauseEnd#1 before assert [C35.group_by_end_searched_in_same_length_text] len(arg0) == len(rest)
+//@ func parseOrderBy
+//@   at clauseEnd#1 before assert [C35.order_by_end_searched_in_same_length_text] len(arg0) == len(rest)
